@@ -98,8 +98,15 @@ def runner_lines(tr: Trace, lifecycle: bool = False) -> tuple[list[str], list[st
     step_writes = [(e, idx) for (e, _t, idx, origin) in tr.stream if origin == "step"]
     sw = 0
     all_calls_index = {id(c): i for i, c in enumerate(tr.calls)}
+    # worker tasks that ended CANCELLED while the run went on (script op self_cancel): no tick; the model's `wgone` takes the
+    # worker out of the task set where the real runner is seen without it (state, buffer and log must not move: compared below)
+    gone = [(rec[1], rec[5].get("wid"), rec[5].get("at_call", 0)) for rec in tr.steps if rec[0] == "self_cancel" and rec[5].get("wid") is not None]
     for c in calls[1:]:
         k = all_calls_index[id(c)]
+        for g in list(gone):
+            if g[2] <= k and (g[0], g[1]) not in list(c.runner.get("running_workers", [])) + list(c.runner.get("pending_workers", [])):
+                ops.append("wgone %s %d" % (enc.step_id(g[0]), g[1])); outs.append("ok")
+                gone.remove(g)
         # step-side stream writes that happened before this reducer call
         while sw < len(step_writes) and step_writes[sw][1] <= k:
             ops.append("swrite " + enc.ev(step_writes[sw][0])); outs.append("ok")
